@@ -64,6 +64,8 @@ fn main() {
         }
         "C01" => vh::props::c01::run_c01(&mut rep, thorough, a.replay.as_deref()),
         "C15" => vh::props::c01::run_c15(&mut rep, thorough),
+        "C12" => vh::props::c12::run(&mut rep, thorough, false),
+        "C06" => vh::props::c06::run(&mut rep, thorough),
         "smoke" => {
             smoke();
             return;
